@@ -79,5 +79,9 @@ def run(ctx):
     ctx.floor("E-LIN.rcguard", "try_remove_node bodies", nrg, 2)
     nps = ecanon.check_ptr_split(ctx, F)
     ctx.floor("E-CANON.ptrsplit", "is_inner() branches of the pointer-based manager", nps, 6)
+    ctx.explain("E-REC.depth: every splitting method of the ParallelRecursors decrements remaining_depth, the switch to the "
+                "sequential recursor happens exactly at 0, and the SequentialRecursor never asks for a switch.")
+    nrd = elock.run_recursor_depth(ctx, F)
+    ctx.floor("E-REC.depth", "recursor obligations", nrd, 6)
     ctx.not_decided = ("equivalence to a sequential execution over schedules, lost updates in the lock-free lists, "
                        "deadlock freedom beyond lock order (condvar protocols): behavioural, not claimed")
